@@ -138,7 +138,7 @@ class P(b1.Plugin):
 
 def main(tier):
     t0 = time.time()
-    proof = common.proof_obligations("C03", modules=["EduceModel.Props.C03", "EduceModel.Props.E2E"])
+    proof = common.proof_obligations("C03", modules=["EduceModel.Props.C03", "EduceModel.Props.E2E", "EduceModel.Props.Profile"])
     n_defs, cap_vals, cap_pairs = (160, 12, 150) if tier == "quick" else (1500, 27, 700)
     tie = b1.run_b1("C03", P(cap_pairs), n_defs, cap_vals, common.seed())
     return common.finish("C03", tier, t0, proof, tie)
